@@ -307,3 +307,143 @@ Example counters_example :
   let s := fold_left (spec_step_opt c) ops spec_init in
   s_cur s = 32 /\ written_count c s = 5 /\ s_cur s - written_count c s = 27.
 Proof. vm_compute. repeat split. Qed.
+
+(* ------------------------------------------------------------------ the Spec of a multi-block call is the
+   sequence of the Spec steps of its blocks: same cursor, same map (pointwise).  So the gapped-mode Spec
+   (spec_step_blocks) and the continuous-mode Spec (one step per block, as the extension splits the
+   call) describe a valid rf_write_blocks call identically. *)
+Lemma blocks_spec_equiv c vec : forall G1 D1 g1 d1 tl1 top s, length G1 = length D1 -> combine G1 D1 = tl1 ->
+  rows_wf ((g1, d1) :: tl1) (zlen vec) top -> 0 <= d1 -> s_cur s <= g1 -> 0 <= g1 ->
+  let s' := fold_left (spec_step c) (blocks_of (g1 :: G1) (d1 :: D1) vec (zlen vec)) s in
+  s_cur s' = rows_end g1 d1 tl1 (zlen vec) /\
+  forall k, s_map s' k = match rows_lookup ((g1, d1) :: tl1) vec (k - c_start c) with
+                         | Some v => Some v
+                         | None => s_map s k
+                         end.
+Proof.
+  induction G1 as [|g' G1 IH]; intros D1 g1 d1 tl1 top s Hl Ec Hw Hd Hcur Hg.
+  - destruct D1; [|discriminate]. cbn [combine] in Ec. subst tl1. rewrite rows_wf_one in Hw.
+    cbn [blocks_of fold_left]. cbv zeta. unfold spec_step.
+    assert (El : (g1 <? s_cur s) = false) by (apply Z.ltb_ge; lia). rewrite El.
+    rewrite (slice_length vec d1 (zlen vec - d1)) by lia.
+    assert (E0 : (zlen vec - d1 =? 0) = false) by (apply Z.eqb_neq; lia). rewrite E0.
+    cbn [s_cur s_map rows_end]. split; [reflexivity|]. intros k. rewrite rl_one.
+    destruct ((c_start c + g1 <=? k) && (k <? c_start c + g1 + (zlen vec - d1))) eqn:E.
+    + apply andb_true_iff in E as [E1 E2]. apply Z.leb_le in E1. apply Z.ltb_lt in E2.
+      assert (E' : (g1 <=? k - c_start c) && (k - c_start c <? g1 + (zlen vec - d1)) = true)
+        by (apply andb_true_iff; split; [apply Z.leb_le|apply Z.ltb_lt]; lia).
+      rewrite E'. replace (k - c_start c - g1) with (k - c_start c - g1) by lia.
+      rewrite (slice_nth vec d1 (zlen vec - d1) (k - c_start c - g1)) by lia.
+      replace (d1 + (k - c_start c - g1)) with (d1 + (k - c_start c - g1)) by lia.
+      destruct (nth_error_in_range vec (d1 + (k - c_start c - g1)) ltac:(lia)) as (v & Hv). rewrite Hv. reflexivity.
+    + assert (E' : (g1 <=? k - c_start c) && (k - c_start c <? g1 + (zlen vec - d1)) = false).
+      { apply andb_false_iff in E as [E|E]; apply andb_false_iff; [left; apply Z.leb_gt; apply Z.leb_gt in E; lia
+                                                                 |right; apply Z.ltb_ge; apply Z.ltb_ge in E; lia]. }
+      rewrite E'. reflexivity.
+  - destruct D1 as [|d' D1]; [discriminate|]. cbn [combine] in Ec. subst tl1.
+    apply wf_two_inv in Hw as (A & B & C & D & E).
+    change (blocks_of (g1 :: g' :: G1) (d1 :: d' :: D1) vec (zlen vec))
+      with ((g1, slice vec d1 (d' - d1)) :: blocks_of (g' :: G1) (d' :: D1) vec (zlen vec)).
+    cbn [fold_left]. cbv zeta.
+    set (s1 := spec_step c s (g1, slice vec d1 (d' - d1))).
+    assert (Hs1 : s_cur s1 = g1 + (d' - d1) /\
+                  forall k, s_map s1 k = if (c_start c + g1 <=? k) && (k <? c_start c + g1 + (d' - d1))
+                                         then nth_error (slice vec d1 (d' - d1)) (Z.to_nat (k - c_start c - g1)) else s_map s k).
+    { unfold s1, spec_step. assert (El : (g1 <? s_cur s) = false) by (apply Z.ltb_ge; lia). rewrite El.
+      rewrite (slice_length vec d1 (d' - d1)) by lia.
+      assert (E0 : (d' - d1 =? 0) = false) by (apply Z.eqb_neq; lia). rewrite E0. cbn [s_cur s_map].
+      split; [reflexivity|]. intros k. reflexivity. }
+    destruct Hs1 as (Hc1 & Hm1).
+    destruct (IH D1 g' d' (combine G1 D1) top s1 ltac:(cbn in Hl; lia) eq_refl E ltac:(lia) ltac:(lia) ltac:(lia))
+      as (Hc' & Hm').
+    cbn [rows_end]. split; [exact Hc'|]. intros k. rewrite Hm', rl_two, Hm1.
+    destruct ((c_start c + g1 <=? k) && (k <? c_start c + g1 + (d' - d1))) eqn:E1.
+    + apply andb_true_iff in E1 as [E1 E2]. apply Z.leb_le in E1. apply Z.ltb_lt in E2.
+      assert (E' : (g1 <=? k - c_start c) && (k - c_start c <? g1 + (d' - d1)) = true)
+        by (apply andb_true_iff; split; [apply Z.leb_le|apply Z.ltb_lt]; lia).
+      rewrite E'.
+      rewrite (rows_lookup_below (combine G1 D1) g' d' vec top (k - c_start c) E) by lia.
+      rewrite (slice_nth vec d1 (d' - d1) (k - c_start c - g1)) by lia.
+      destruct (nth_error_in_range vec (d1 + (k - c_start c - g1)) ltac:(lia)) as (v & Hv). rewrite Hv. reflexivity.
+    + assert (E' : (g1 <=? k - c_start c) && (k - c_start c <? g1 + (d' - d1)) = false).
+      { apply andb_false_iff in E1 as [E1|E1]; apply andb_false_iff; [left; apply Z.leb_gt; apply Z.leb_gt in E1; lia
+                                                                   |right; apply Z.ltb_ge; apply Z.ltb_ge in E1; lia]. }
+      rewrite E'. reflexivity.
+Qed.
+
+Theorem blocks_spec_is_sequence c s G D vec :
+  c_cont c && multi (combine G D) = false ->
+  py_arrays_ok (s_cur s) (zlen vec) G D = true -> first_nonneg (combine G D) ->
+  let a := spec_step_blocks c s (combine G D, vec) in
+  let b := fold_left (spec_step c) (blocks_of G D vec (zlen vec)) s in
+  s_cur a = s_cur b /\ forall k, s_map a k = s_map b k.
+Proof.
+  intros Hm Hok Hnn a b.
+  pose proof (py_valid_implies_c_valid _ _ _ _ Hok) as Hv.
+  assert (Ha : accepted c (s_cur s) (combine G D) vec = true).
+  { unfold accepted. rewrite Hv, Hm. reflexivity. }
+  destruct (valid_arrays_wf _ _ _ Hv) as (g0 & tl & E & Hge & Hvl & Hwf).
+  unfold py_arrays_ok in Hok. destruct G as [|g G]; [discriminate|]. destruct D as [|d0 D]; [discriminate|].
+  repeat (apply andb_true_iff in Hok as [Hok ?]).
+  match goal with Hx : Nat.eqb _ _ = true |- _ => apply Nat.eqb_eq in Hx; rename Hx into Hlen end.
+  pose proof E as E2. cbn [combine] in E2. injection E2 as Eg Ed Etl. subst g0. subst d0.
+  cbn [combine first_nonneg] in Hnn.
+  destruct (blocks_spec_equiv c vec G D g 0 tl _ s ltac:(cbn in Hlen; lia) Etl Hwf ltac:(lia) Hge Hnn) as (Hc & Hmp).
+  unfold a, b, spec_step_blocks. rewrite Ha. cbn [s_cur s_map]. rewrite E. cbn [blocks_end].
+  split; [symmetry; exact Hc|]. intros k. rewrite Hmp. reflexivity.
+Qed.
+
+(* ---- gapped mode: the counters count for histories mixing rf_write and rf_write_blocks *)
+Lemma written_count_ext c a b : s_cur a = s_cur b -> (forall k, s_map a k = s_map b k) -> written_count c a = written_count c b.
+Proof. intros Hc Hm. unfold written_count. rewrite Hc. apply cnt_ext. intros k _. apply Hm. Qed.
+
+Lemma SpecOk_ext c a b : s_cur a = s_cur b -> (forall k, s_map a k = s_map b k) -> SpecOk c b -> SpecOk c a.
+Proof. intros Hc Hm (H0 & Hn). split; [lia|]. intros k Hk. rewrite Hm. apply Hn. lia. Qed.
+
+Lemma count_blocks_step_gapped c ps s G D vec : vcfg c -> c_chunk c = true -> c_cont c = false ->
+  CountInv c (refines c) ps s -> first_nonneg (combine G D) ->
+  CountInv c (refines c) (snd (py_rf_write_blocks c ps G D vec)) (api_spec_gapped c s (ABlocks G D vec)).
+Proof.
+  intros Hc Hch Hco HC Hnn. pose proof HC as (HI & Hs & Hw & Hgp).
+  pose proof (py_rf_write_blocks_gapped c ps s G D vec Hc Hch Hco HI Hnn) as H.
+  cbn [api_spec_gapped]. destruct (py_arrays_ok (s_cur s) (zlen vec) G D) eqn:Eok.
+  - destruct H as (Hret & HI').
+    destruct (blocks_spec_is_sequence c s G D vec ltac:(rewrite Hco; reflexivity) Eok Hnn) as (Hce & Hme).
+    destruct (ascending_count c (blocks_of G D vec (zlen vec)) s Hs (py_ok_ascending _ vec G D Eok Hnn)) as (Hs' & Hc').
+    rewrite (py_ok_total _ vec G D Eok) in Hc'.
+    pose proof (api_written_step c ps (ABlocks G D vec)) as Hwr.
+    unfold api_state, accepted_len in Hwr. cbn [api_call] in Hwr. rewrite Hret in Hwr. cbn [fst Z.eqb OK] in Hwr.
+    pose proof (py_step_counters c ps (OpBlocks G D vec) (CountInv_counters c (refines c) ps s HC)) as Hsum.
+    unfold counters_ok in Hsum. cbn [py_step] in Hsum.
+    assert (Hnx : p_next (snd (py_rf_write_blocks c ps G D vec)) = s_cur (spec_step_blocks c s (combine G D, vec)))
+      by (destruct HI' as (_ & _ & Hx & _); exact Hx).
+    unfold CountInv. split; [exact HI'|]. split; [exact (SpecOk_ext c _ _ Hce Hme Hs')|].
+    rewrite (written_count_ext c _ _ Hce Hme). split; lia.
+  - destruct H as (code & ->). cbn [snd]. exact HC.
+Qed.
+
+Lemma count_api_history_gapped c : vcfg c -> c_chunk c = true -> c_cont c = false ->
+  forall ops ps s, CountInv c (refines c) ps s -> Forall api_arg_ok ops ->
+  CountInv c (refines c) (fold_left (api_state c) ops ps) (fold_left (api_spec_gapped c) ops s).
+Proof.
+  intros Hc Hch Hco. induction ops as [|op ops IH]; intros ps s HC Hops; cbn [fold_left]; [exact HC|].
+  inversion Hops as [|? ? Hop Hops']; subst. apply IH; [|exact Hops'].
+  destruct op as [ns vec|G D vec]; unfold api_state; cbn [api_call api_spec_gapped].
+  - apply (count_write_step c (refines c) (fun st s0 H => proj1 (proj2 H)) (chunked_R_call c Hc Hch) ps s ns vec HC).
+    destruct ns; exact Hop.
+  - apply count_blocks_step_gapped; assumption.
+Qed.
+
+Theorem counters_count_gapped c ops : vcfg c -> c_chunk c = true -> c_cont c = false ->
+  Forall api_arg_ok ops ->
+  let ps := fold_left (api_state c) ops py_init in
+  let s := fold_left (api_spec_gapped c) ops spec_init in
+  p_next ps = s_cur s /\ p_written ps = written_count c s /\ p_gap ps = s_cur s - written_count c s.
+Proof.
+  intros Hc Hch Hco Hops ps s.
+  assert (HR : refines c init_state spec_init)
+    by (split; [apply Inv_init|]; split; [reflexivity|]; split; [reflexivity|exact I]).
+  destruct (count_api_history_gapped c Hc Hch Hco ops py_init spec_init (CountInv_init c (refines c) HR) Hops)
+    as ((_ & _ & Hn & _) & _ & Hw & Hg).
+  auto.
+Qed.
